@@ -188,7 +188,7 @@ def run(tier, seed):
     fam = emulator_family(env, tier)
     if tier == "quick":
         fam = [f for f in fam if f["n"] <= 3 or "sub" in f["name"]]
-    maxph = {2: 2, 3: 2, 4: 2}
+    maxph = {2: 2, 3: 2, 4: 2} if tier == "quick" else {2: 3, 3: 3, 4: 2, 5: 2}
 
     def shard_fn(recipes):
         acc = kernel.Acc()
